@@ -721,7 +721,8 @@ func replayFamily(behs [][]map[string]any) []Scenario {
 
 var hostileClasses = []string{"wrongdir", "early-heartbeat", "unknown-type", "empty-packet", "v3-trunc-len", "v3-inflated-len", "v3-neg-len",
 	"v3bin-garbage", "bad-utf8", "bad-base64", "octet-v4", "odd-method", "huge-query", "jsonp-garbage", "ws-binary-on-b64", "ws-empty",
-	"ws-control", "ws-after-close", "post-after-close", "eio-mismatch-upgrade", "garbage-body", "double-colon", "many-packets"}
+	"ws-control", "ws-after-close", "post-after-close", "eio-mismatch-upgrade", "garbage-body", "double-colon", "many-packets",
+	"probe-repeat", "probe-then-silence", "wt-bad-handshake"}
 
 func cpuNow() time.Duration {
 	var ru syscall.Rusage
@@ -860,6 +861,50 @@ func (sc *Script) hostile(c *cliSess, class string) int {
 			c.dead = true
 			return 12
 		}
+	case "probe-repeat":
+		// a candidate that keeps probing (each probe is answered and restarts the upgrade check), then finishes or gives up
+		if c.Kind == "polling" {
+			cand := w.DialWS(s, "", nil, nil)
+			sc.settle()
+			for i := 0; i < 2+sc.r.Intn(3) && !cand.closed; i++ {
+				cand.SendPkt(Pkt{Type: "ping", Data: []byte("probe")})
+				sc.settle()
+				w.g.Sleep(time.Duration(30+sc.r.Intn(100)) * time.Millisecond)
+			}
+			switch sc.r.Intn(3) {
+			case 0:
+				cand.SendPkt(Pkt{Type: "upgrade"})
+				sc.settle()
+				if so := w.Sock(sid); so != nil && so.Upgraded() && !cand.closed {
+					c.Kind, c.ws = "websocket", cand
+					cand.OnPkt = func(wc *WSClient, p Pkt) { sc.processPkts(c, []Pkt{p}, wc) }
+				}
+			case 1:
+				cand.Drop()
+			}
+			sc.settle()
+			return 20
+		}
+	case "probe-then-silence":
+		if c.Kind == "polling" {
+			cand := w.DialWS(s, "", nil, nil)
+			sc.settle()
+			cand.SendPkt(Pkt{Type: "ping", Data: []byte("probe")})
+			sc.settle()
+			w.g.Sleep(sc.cfg.PI/100 + 11*time.Second) // past the upgrade timeout
+			sc.settle()
+			return 7
+		}
+	case "wt-bad-handshake":
+		// a WebTransport session whose first message is not a well-formed handshake packet
+		firsts := []string{"0null", "0{}", `0{"sid":""}`, `0{"sid":123}`, "0[", "4hello", "", "0{\"sid\":\"nope\"}", "1", "\x00"}
+		n := 0
+		for _, f := range firsts {
+			w.dialWTRaw(&Sess{Proto: 4, Sid: "x"}, f, nil)
+			sc.settle()
+			n += len(f)
+		}
+		return n
 	case "garbage-body":
 		b := make([]byte, 64)
 		sc.r.Read(b)
@@ -935,9 +980,9 @@ func (sc *Script) canaryRoundTrip(can *cliSess) {
 func hostileScenario(name string, seed int64) Scenario {
 	return Scenario{Name: name, Run: func(t *testing.T, rec *Rec, g *Gates) {
 		r := rand.New(rand.NewSource(seed))
-		cfg := EngCfg{PI: 25 * time.Second, PT: 20 * time.Second, EIO3: true}
+		cfg := EngCfg{PI: 25 * time.Second, PT: 20 * time.Second, EIO3: true, WT: true}
 		w := newEngWorld(t, rec, g, cfg)
-		sc := &Script{w: w, r: r, cfg: cfg, W: map[string]int{"ws-direct": 40, "jsonp": 15, "max-sessions": 9}}
+		sc := &Script{w: w, r: r, cfg: cfg, W: map[string]int{"ws-direct": 35, "wt-direct": 12, "jsonp": 15, "max-sessions": 9}}
 		// the canary
 		sc.newSession()
 		sc.settle()
